@@ -210,7 +210,36 @@ type iworld interface {
 	rawSend(hp int, x Item) bool
 	rawCloseSend(hp int)
 	forwarders() int
+	// concurrent cases with constructor calls made while the ends are driven (Case.Lazy): a goroutine
+	// takes hold of its reader once (handle) and the world is not looked at again from that goroutine,
+	// so that the harness adds no synchronisation of its own between the goroutines of a case;
+	// setQuiet: constructor calls no longer count the goroutines they start (meaningless while
+	// other goroutines come and go)
+	handle(h int) ihandle
+	count() int
+	setQuiet()
 }
+
+// ihandle: one reader, as the goroutine driving it holds it
+type ihandle interface {
+	rawRecv() O
+	rawClose()
+}
+
+type handle[T any] struct {
+	cd codec[T]
+	sr *schema.StreamReader[T]
+}
+
+func (h handle[T]) rawRecv() O {
+	v, err := h.sr.Recv()
+	if err != nil {
+		return classify(0, err)
+	}
+	return classify(h.cd.dec(v), nil)
+}
+
+func (h handle[T]) rawClose() { h.sr.Close() }
 
 func newWorld(ty string) iworld {
 	switch ty {
@@ -229,10 +258,14 @@ type world[T any] struct {
 	hs      []*schema.StreamReader[T]
 	writers map[int]*schema.StreamWriter[T]
 	nfwd    int
+	quiet   bool
 	arena   []T // backing array shared by the array sources with Spare == 1
 }
 
-func (w *world[T]) forwarders() int { return w.nfwd }
+func (w *world[T]) forwarders() int      { return w.nfwd }
+func (w *world[T]) count() int           { return len(w.hs) }
+func (w *world[T]) setQuiet()            { w.quiet = true }
+func (w *world[T]) handle(h int) ihandle { return handle[T]{cd: w.cd, sr: w.hs[h]} }
 
 func (w *world[T]) idsOf(rets []*schema.StreamReader[T]) []int {
 	ids := []int{}
@@ -258,7 +291,10 @@ func (w *world[T]) idsOf(rets []*schema.StreamReader[T]) []int {
 
 // construct performs one constructor call; goroutines it starts are counted.
 func (w *world[T]) construct(o Op) O {
-	before := runtime.NumGoroutine()
+	before := 0
+	if !w.quiet {
+		before = runtime.NumGoroutine()
+	}
 	var rets []*schema.StreamReader[T]
 	switch o.K {
 	case "pipe":
@@ -314,8 +350,10 @@ func (w *world[T]) construct(o Op) O {
 			rets = []*schema.StreamReader[T]{schema.MergeStreamReaders(srs)}
 		}
 	}
-	if d := runtime.NumGoroutine() - before; d > 0 {
-		w.nfwd += d
+	if !w.quiet {
+		if d := runtime.NumGoroutine() - before; d > 0 {
+			w.nfwd += d
+		}
 	}
 	return O{K: "new", Hs: w.idsOf(rets)}
 }
@@ -327,15 +365,9 @@ func (w *world[T]) rawSend(hp int, x Item) bool {
 
 func (w *world[T]) rawCloseSend(hp int) { w.writers[hp].Close() }
 
-func (w *world[T]) rawRecv(h int) O {
-	v, err := w.hs[h].Recv()
-	if err != nil {
-		return classify(0, err)
-	}
-	return classify(w.cd.dec(v), nil)
-}
+func (w *world[T]) rawRecv(h int) O { return w.handle(h).rawRecv() }
 
-func (w *world[T]) rawClose(h int) { w.hs[h].Close() }
+func (w *world[T]) rawClose(h int) { w.handle(h).rawClose() }
 
 func (w *world[T]) send(hp int, x Item) (o O) {
 	var closed bool
@@ -705,12 +737,29 @@ func runConcOnce(c *Case, seed uint64) lib.Result {
 	schema.VerifC19Start()
 	buildOK := true
 	built := make(chan struct{})
+	// Case.Lazy: the last Lazy constructor calls are made by a goroutine of their own while the
+	// writers and the readers that exist already are at work (a Copy / Convert / Merge racing with the
+	// sends into the pipe behind it and with the reads and closes of sibling copies); the readers
+	// they return are driven from the moment they exist. The tree, and with it what every reader
+	// must deliver, is the same as if everything had been built first.
+	type lazyOp struct {
+		i    int
+		o    Op
+		want []int
+	}
+	var lazy []lazyOp
+	nEager := len(c.Ops) - c.Lazy
 	go func() { // a constructor that never returns (Merge fills a stream) is a hang, not a stuck harness
 		defer close(built)
 		for i, o := range c.Ops {
 			want, legal := sh.apply(o)
 			if !legal {
 				out.Build = append(out.Build, O{K: "illegal"})
+				continue
+			}
+			if i >= nEager && o.K != "pipe" {
+				lazy = append(lazy, lazyOp{i, o, want})
+				out.Build = append(out.Build, O{K: "new", Hs: want}) // (replaced by what the call returned)
 				continue
 			}
 			var ob O
@@ -758,6 +807,61 @@ func runConcOnce(c *Case, seed uint64) lib.Result {
 	var panics atomic.Int32
 	var wg sync.WaitGroup
 	root := lib.NewRng(seed)
+	// every leaf goroutine holds its reader itself; a reader made by a lazy constructor call is handed
+	// over (ready) when it exists
+	hd := make([]ihandle, len(c.Leaves))
+	ready := make([]chan struct{}, len(c.Leaves))
+	for i, l := range c.Leaves {
+		if l.H < w.count() {
+			hd[i] = w.handle(l.H)
+		} else {
+			ready[i] = make(chan struct{})
+		}
+	}
+	lazyObs := make([]O, len(lazy))
+	var lazyBad atomic.Int32
+	if len(lazy) > 0 {
+		w.setQuiet()
+		wg.Add(1)
+		r := root.Fork(3000)
+		go func() {
+			defer wg.Done()
+			handed := make([]bool, len(c.Leaves))
+			defer func() {
+				if p := recover(); p != nil {
+					panics.Add(1)
+				}
+				for i := range ready { // a leaf whose reader never came into being gives up
+					if ready[i] != nil && !handed[i] {
+						close(ready[i])
+					}
+				}
+			}()
+			for k, lz := range lazy {
+				for j, n := 0, 1+r.Intn(4); j < n; j++ {
+					yield(r)
+				}
+				ob := w.construct(lz.o)
+				lazyObs[k] = ob
+				if fmt.Sprint(ob.Hs) != fmt.Sprint(lz.want) {
+					lazyBad.Add(1)
+					continue
+				}
+				for i, l := range c.Leaves {
+					if ready[i] == nil || handed[i] {
+						continue
+					}
+					for _, h := range lz.want {
+						if h == l.H {
+							hd[i] = w.handle(l.H)
+							handed[i] = true
+							close(ready[i])
+						}
+					}
+				}
+			}
+		}()
+	}
 	// barrier (storm cases): every leaf waits, for a bounded time, until all leaves are about to
 	// call Close, so that the closes of the copies of one stream hit the shared parent at the
 	// same instant; never blocks for good (a leaf that cannot arrive is not waited for)
@@ -808,17 +912,24 @@ func runConcOnce(c *Case, seed uint64) lib.Result {
 			h := &lh[i]
 			h.H = l.H
 			h.Got = []Item{}
+			if ready[i] != nil {
+				<-ready[i]
+			}
+			rd := hd[i]
+			if rd == nil {
+				return // (the constructor call that was to return this reader failed: reported below)
+			}
 			spinUntilAll(&started) // storm cases: the first Recv of every copy at the same instant
 			for l.Max < 0 || len(h.Got) < l.Max {
 				yield(r)
-				o := w.rawRecv(l.H)
+				o := rd.rawRecv()
 				if o.R == "eof" {
 					eofAt[i] = clock.Add(1)
 					h.EOF = true
 					// end-of-stream is final: a further Recv on the same reader (a second call on an
 					// ended object; it cannot block, whatever the reader is made of) says io.EOF again
 					for k, n := 0, []int{0, 0, 1, 2}[r.Intn(4)]; k < n; k++ {
-						if o2 := w.rawRecv(l.H); o2.R != "eof" {
+						if o2 := rd.rawRecv(); o2.R != "eof" {
 							afterEOF.Add(1)
 						}
 					}
@@ -835,7 +946,7 @@ func runConcOnce(c *Case, seed uint64) lib.Result {
 			} else {
 				yield(r)
 			}
-			w.rawClose(l.H)
+			rd.rawClose()
 		}(i, l)
 	}
 	for i, wr := range c.Writers {
@@ -905,6 +1016,17 @@ func runConcOnce(c *Case, seed uint64) lib.Result {
 		return res
 	}
 	out.Writers, out.Leaves = wh, lh
+	for k, lz := range lazy {
+		out.Build[lz.i] = lazyObs[k]
+	}
+	if lazyBad.Load() > 0 {
+		for k, lz := range lazy {
+			if fmt.Sprint(lazyObs[k].Hs) != fmt.Sprint(lz.want) {
+				fail("handles", fmt.Sprintf("op %d (%s, called while the ends were driven) returned readers %v, expected %v", lz.i, lz.o.K, lazyObs[k].Hs, lz.want))
+				break
+			}
+		}
+	}
 	if n := panics.Load(); n > 0 {
 		fail("panic", fmt.Sprintf("%d goroutine(s) panicked inside a stream call", n))
 	}
@@ -1063,6 +1185,9 @@ func runConcOnce(c *Case, seed uint64) lib.Result {
 			tags = append(tags, "late-writer")
 			break
 		}
+	}
+	if len(lazy) > 0 {
+		tags = append(tags, fmt.Sprintf("lazy-build:%d", len(lazy)))
 	}
 	seenTag := map[string]bool{}
 	opTags(c.Ops, func(t string) {
